@@ -75,6 +75,7 @@ def handleSpec (op : String) (a : Args) : String :=
   | "unpack" => s!"ok out={showNats (unpackLE (a.nat "w") (a.nat "n") inp)}"
   | "pack" => s!"ok out={toHex (packLE (a.nat "w") (a.nats "vals"))}"
   | "hybrid" => s!"ok out={showNats (decodeHybrid (a.nat "w") (a.nat "n") inp)}"
+  | "hybrid_tight" => s!"ok tight={if hybridTight (a.nat "w") (a.nat "n") inp then 1 else 0}"
   | "hybrid_enc" => s!"ok out={toHex (encodeRuns (a.nat "w") ((a.list "runs").map parseRun))}"
   | "delta" =>
     match decodeDelta (a.nat "bits" 32) inp with
